@@ -105,7 +105,10 @@ def _check(mods, pars, reg, training, req, gstate):
         if pars[i].requires_grad != req[i]:
             return False
         g = _g(pars[i])
-        if gstate[i] is None:
+        if gstate[i] == "?":         # cleared while it held no gradient: "still none" and "a buffer of zeros" are both fine
+            if g is not None and float(abs(g).sum()) != 0.0:
+                return False
+        elif gstate[i] is None:
             if g is not None:
                 return False
         elif g is None or float(g.sum()) != float(gstate[i] * pars[i].size):
@@ -172,11 +175,11 @@ def %(name)s(rest: List[int]) -> bool:
         elif a == 20:
             mods[0].zero_grad()
             for p in _reach_params(reg, 0):
-                if req[p]: gstate[p] = 0
+                if req[p]: gstate[p] = 0 if gstate[p] not in (None, "?") else "?"
         elif a == 21:
             mods[1].zero_grad()
             for p in _reach_params(reg, 1):
-                if req[p]: gstate[p] = 0
+                if req[p]: gstate[p] = 0 if gstate[p] not in (None, "?") else "?"
         elif a == 22:
             _setg(pars[0], np.ones(pars[0].shape, dtype=np.float32)); gstate[0] = 1
         elif a == 23:
